@@ -87,11 +87,12 @@ Definition region_bits (g : graph) : nat :=
   (if region_rename g then 1 else 0) + (if region_private g then 2 else 0)
   + (if region_only_empty g then 4 else 0) + (if region_only_dup g then 8 else 0).
 
-(* acyclic = the toposort model succeeds; the Spec is only asked about legal programs *)
+(* acyclic = the toposort model succeeds; the Spec is only asked about legal programs (region
+   value 16 marks the programs that are not: ambiguous identifiers, cycles, self use) *)
 Definition judge_run (g0 : graph) (r : run) : nat :=
   let g := reorder (map lower_module g0) (map lower (r_files r)) in
   let legal := wf_graph g && match toposort g with Some _ => true | None => false end in
-  verdict (negb (model_ok g r)) (legal && negb (spec_ok g r)) (region_bits g).
+  verdict (negb (model_ok g r)) (legal && negb (spec_ok g r)) (region_bits g + (if legal then 0 else 16)).
 Definition judge (c : case) : nat := fold_left Nat.lor (map (judge_run (fst c)) (snd c)) 0.
 
 (* short constructors for runs *)
